@@ -60,6 +60,10 @@ CHECKS = {
  "C17": ("other", "contract-based deductive verification of register_forward_ref (registration completeness) and resolve_forward_type",
          "R1: a reference that cannot be evaluated yet is remembered under the key of its declaration site together with its constraints; R2: an evaluated reference is replaced by its value and reported, others are unchanged. "
          "Equality of behaviour with the direct spelling for every definition / first-use order, postponed evaluation and local scopes depends on typing's evaluator and module globals and is not decided - hence 'other'.", "DESIGN 3 C17"),
+ "C06": ("other", "BOUNDED contract verification: field_first_parse and data_first_parse each verified against the same declarative field contract for one parser shape",
+         "Bounded stand-in, not a proof for all declarations: for a parser with two declared fields (one with a second input name) and input keys a, x, b, zz in every presence combination (16), addition None/False/True, fail-fast and collecting, "
+         "with symbolic values, flags, defaults and options, both strategies satisfy the same functional specification of (result, error set); callees (parse_value, is_no_input, is_required, get_default, parse_addition) are used through their proved contracts. "
+         "Dependencies, case-insensitive names, excluded keys, ignore_alias_conflicts and other shapes are outside the bound.", "DESIGN 3 C06, 8.6"),
  "C16": ("proof", "contract-based deductive verification: representation invariant of TypeRegistry preserved by every operation",
          "The registry's list/cache are related to an abstract view (entries with priority and ghost registration stamp); "
          "I1 priority order, I2 most-recent-first, I3 cache coherence, I4 stamps are established by __init__ and preserved by the register "
@@ -67,7 +71,6 @@ CHECKS = {
          "proved to be the matching registration of highest priority with the latest stamp; detector closure = the documented criteria.", "DESIGN 3 C16"),
 }
 NA = {
- "C06": "not claimed: deciding it needs a relational (two-run) verification of data_first_parse against field_first_parse; the shape-bounded mode planned for it (DESIGN 2.9) was not built, and the two loops are not under contract (only their callees are) - no check exists, so nothing is claimed",
  "C08": "oracle is CPython's own argument binding and the generator/async protocol; the VC generator has no semantics for yield/await (DESIGN 4)",
  "C14": "round trip runs through isoformat/strptime/regex/repr string formats that neither solver decides; axiomatising them would assume the property (DESIGN 4)",
  "C20": "schedules: contracts here are sequential, no thread semantics or rely/guarantee checker in the sandbox (DESIGN 4)",
